@@ -1539,8 +1539,8 @@ class C03(Prop):
             clause = st.split(" ")[0] if st in ("panic", "abort") else "err:" + (st.split(" ")[1] if " " in st else st)
             v = viol("C03", h, k, info, clause, {"got": h.real[k][:200]},
                      model_same=(fm is not None and fm["status"] == st))
-            if info is not None and info.kind == "sincin" and info.p[-1] == "rprobe" and info.p[3] == "1":
-                v["class"] = "sincin:user-interpolator-len-1"       # witness class of finding D18
+            if info is not None and info.kind == "sincin" and info.p[-1] == "rprobe" and info.p[3] in ("1", "2"):
+                v["class"] = "sincin:user-interpolator-len-below-3"       # witness class of finding D18
             if fm is not None and fm.get("site") and "position diverges" in fm["site"]:
                 # the model's stepping loop ran to its idle fuel: no active channel and a position that moves away from
                 # end_idx (witness class of finding D17)
